@@ -30,6 +30,9 @@ type Scope_ struct {
 	MustHaveContract []string `json:"must_have_contract"` // functions that must carry a contract with at least one ensures
 	QuickTimeout    [2]int `json:"quick_timeout"`
 	ThoroughTimeout [2]int `json:"thorough_timeout"`
+	StaticOnly  bool     `json:"static_only"`  // generate only the static obligations
+	Static      []string `json:"static"`       // syntactic frame obligations over the scope: "noglobal", "nogo"
+	GlobalsAllowed []string `json:"globals_allowed"` // package-level variables that may be written (regexps), with the reason in the description
 	NotDecided  []string `json:"not_decided"` // parts of the property not decided by this check (documentation, copied to evidence)
 }
 
@@ -220,7 +223,13 @@ func cmdCheck(args []string) {
 			}
 		}
 	}
-	results := e.generateAll(fns, lems, sc.ExtraKinds)
+	var results []*FuncResult
+	if !sc.StaticOnly {
+		results = e.generateAll(fns, lems, sc.ExtraKinds)
+	}
+	if len(sc.Static) > 0 {
+		results = append(results, e.staticObligations(&sc, fns)...)
+	}
 	// kind filter
 	if len(sc.Kinds) > 0 {
 		keep := map[string]bool{"cover": true}
@@ -445,4 +454,77 @@ func (e *Env) assumeScanResult() string {
 		return fmt.Sprintf("scanned %d contract files: no assume/trusted/admit clauses", len(e.contractFiles))
 	}
 	return strings.Join(e.assumeScan, "; ")
+}
+
+// staticObligations: frame obligations decided syntactically over go/ssa (no solver): a function of the scope contains
+// no store to a package-level variable / no go statement. Because the scope is the whole set of functions reachable
+// from the API roots, discharging them for every function covers every path.
+func (e *Env) staticObligations(sc *Scope_, fns []*ssa.Function) []*FuncResult {
+	var allowed []*regexp.Regexp
+	for _, p := range sc.GlobalsAllowed {
+		allowed = append(allowed, regexp.MustCompile(p))
+	}
+	want := map[string]bool{}
+	for _, k := range sc.Static {
+		want[k] = true
+	}
+	var out []*FuncResult
+	for _, fn := range fns {
+		r := &FuncResult{Func: funcName(fn), Ctx: NewCtx()}
+		globals := map[string]string{}
+		goes := []string{}
+		for _, b := range fn.Blocks {
+			for _, in := range b.Instrs {
+				switch x := in.(type) {
+				case *ssa.Store:
+					root, _ := chainRoot(x.Addr)
+					if strings.HasPrefix(root, "G:") {
+						globals[root[2:]] = e.pos(x.Pos())
+					}
+				case *ssa.MapUpdate:
+					if u, ok := x.Map.(*ssa.UnOp); ok {
+						if g, ok := u.X.(*ssa.Global); ok {
+							globals[g.Pkg.Pkg.Name()+"."+g.Name()+" (map entry)"] = e.pos(x.Pos())
+						}
+					}
+				case *ssa.Go:
+					goes = append(goes, e.pos(x.Pos()))
+				}
+			}
+		}
+		isInit := fn.Name() == "init" || strings.HasPrefix(fn.Name(), "init#")
+		if want["noglobal"] {
+			ob := &Oblig{Name: funcName(fn) + "#noglobal#writes no package-level variable#0", Kind: "noglobal", Func: funcName(fn), Text: "writes no package-level variable",
+				Hyp: tTrue, Goal: tTrue, Pre: true, Backend: "syntactic frame analysis over go/ssa", Status: "discharged"}
+			var bad []string
+			for g, pos := range globals {
+				ok := isInit
+				for _, re := range allowed {
+					if re.MatchString(g) {
+						ok = true
+					}
+				}
+				if !ok {
+					bad = append(bad, g+" at "+pos)
+				}
+			}
+			if len(bad) > 0 {
+				sort.Strings(bad)
+				ob.Status = "failed-unknown"
+				ob.Output = "stores to package-level variables: " + strings.Join(bad, "; ")
+			}
+			r.Obs = append(r.Obs, ob)
+		}
+		if want["nogo"] {
+			ob := &Oblig{Name: funcName(fn) + "#nogo#starts no goroutine#0", Kind: "nogo", Func: funcName(fn), Text: "starts no goroutine",
+				Hyp: tTrue, Goal: tTrue, Pre: true, Backend: "syntactic analysis over go/ssa", Status: "discharged"}
+			if len(goes) > 0 {
+				ob.Status = "failed-unknown"
+				ob.Output = "go statements at " + strings.Join(goes, ", ")
+			}
+			r.Obs = append(r.Obs, ob)
+		}
+		out = append(out, r)
+	}
+	return out
 }
